@@ -35,18 +35,21 @@ pub fn run(id: &str, rep: &mut Report) -> bool {
             c05::run_part_a(rep);
             c05::pipeline::run(rep);
             rep.alpha("every component execution of every run of all 21 templates (step observer after each child of every sequential block): all individuals in all populations of all scopes, best individual, elitist archive, personal/global best particles, molecule memories");
-            runs::sweep(rep, crate::subject::templates::Flags { c05: true, ..Default::default() }, "templates.every-step.stale-objective-walk", &|_| true)
+            runs::sweep(rep, crate::subject::templates::Flags { c05: true, ..Default::default() }, "templates.every-step.stale-objective-walk", &|_| true);
+            runs::large(rep, crate::subject::templates::Flags { c05: true, ..Default::default() }, "templates.large-instances.stale-objective-walk")
         }
         "C06" => {
             c06::run_part_a(rep);
             rep.alpha("every evaluation component and every firefly update of every run of all 21 templates: counter delta = objective calls (= population size for the evaluator); at the end of the run evaluations() = objective calls");
             runs::sweep(rep, crate::subject::templates::Flags { c06: true, ..Default::default() }, "templates.every-step.evaluation-accounting", &|_| true);
+            runs::large(rep, crate::subject::templates::Flags { c06: true, ..Default::default() }, "templates.large-instances.evaluation-accounting");
             c06::run_budget(rep)
         }
         "C07" => {
             c07::run_part_a(rep);
             rep.alpha("every best-individual update of every run of all 21 templates (best <= every member, monotone, replaced only on strict improvement); at the end of the run best = minimum the objective function returned");
-            runs::sweep(rep, crate::subject::templates::Flags { c07: true, ..Default::default() }, "templates.every-step.best-so-far", &|_| true)
+            runs::sweep(rep, crate::subject::templates::Flags { c07: true, ..Default::default() }, "templates.every-step.best-so-far", &|_| true);
+            runs::large(rep, crate::subject::templates::Flags { c07: true, ..Default::default() }, "templates.large-instances.best-so-far")
         }
         "C08" => c08::run(rep),
         "C09" => c09::run(rep),
@@ -73,9 +76,9 @@ pub fn replay(id: &str, case: &Value) -> Result<Vec<(String, String)>, String> {
         "C02" => c02::replay(case),
         "C03" => c03::replay(case),
         "C04" => c04::replay(case),
-        "C05" => if case.get("spec").is_some() { runs::replay(case) } else if case.get("pipeline").is_some() { c05::pipeline::replay(case) } else { c05::replay_a(case) },
-        "C06" => if case.get("spec").is_some() { runs::replay(case) } else { c06::replay_a(case) },
-        "C07" => if case.get("spec").is_some() { runs::replay(case) } else { c07::replay_a(case) },
+        "C05" => if case.get("spec").is_some() || case.get("large").is_some() { runs::replay(case) } else if case.get("pipeline").is_some() { c05::pipeline::replay(case) } else { c05::replay_a(case) },
+        "C06" => if case.get("spec").is_some() || case.get("large").is_some() { runs::replay(case) } else { c06::replay_a(case) },
+        "C07" => if case.get("spec").is_some() || case.get("large").is_some() { runs::replay(case) } else { c07::replay_a(case) },
         "C08" => c08::replay(case),
         "C09" => c09::replay(case),
         "C10" => c10::replay(case),
